@@ -381,7 +381,8 @@ def build_request(desc, olds=None):
     for c in desc["cmds"]:
         line = fx.sha[c["old"]] + b" " + fx.sha[c["new"]] + b" " + REFNAMES[c["r"] - 1]
         if first:
-            line += b"\0" + b" ".join(os.fsencode(x) for x in sorted(desc["caps"]))
+            if desc["caps"]:
+                line += b"\0" + b" ".join(os.fsencode(x) for x in sorted(desc["caps"]))
             first = False
         out.append(pkt_line(line + b"\n"))
     out.append(pkt_line(None))
@@ -403,6 +404,18 @@ def decode_answer(desc, data, stateless):
     caps = {os.fsencode(c) for c in desc["caps"]}
     n = len(desc["cmds"])
     if b"report-status" not in caps:
+        if b"side-band-64k" in caps:
+            # a client that asked for the side-band still reads it (progress / fatal messages)
+            from dulwich.errors import HangupException
+            cli = LocalGitClient()
+            cli.protocol_version = 0
+            cli._report_status_parser = None
+            try:
+                cli._handle_receive_pack_tail(proto, caps)
+            except HangupException:
+                pass                    # the server said nothing and closed
+            except GitProtocolError as e:
+                return {"unp": "fail", "st": ["-"] * n, "rest": 0, "err": type(e).__name__ + ":" + str(e)[:80]}
         return {"unp": "none", "st": ["-"] * n, "rest": len(f.read()), "err": ""}
     cli = LocalGitClient()
     cli.protocol_version = 0
@@ -410,9 +423,9 @@ def decode_answer(desc, data, stateless):
     try:
         status = cli._handle_receive_pack_tail(proto, caps)
     except SendPackError as e:
-        return {"unp": "fail", "st": ["-"] * n, "rest": len(f.read()), "err": str(e)[:80]}
+        return {"unp": "fail", "st": ["-"] * n, "rest": 0, "err": str(e)[:80]}
     except GitProtocolError as e:      # e.g. the server's message on the fatal side-band channel
-        return {"unp": "fail", "st": ["-"] * n, "rest": len(f.read()), "err": type(e).__name__ + ":" + str(e)[:80]}
+        return {"unp": "fail", "st": ["-"] * n, "rest": 0, "err": type(e).__name__ + ":" + str(e)[:80]}
     st = []
     for c in desc["cmds"]:
         name = REFNAMES[c["r"] - 1]
@@ -534,8 +547,8 @@ def project_real(tr):
     order, and per push what the client was told, plus the final repository."""
     ops = tuple((e["p"], e["i"], e["pre"], e["post"]) for e in tr["ev"] if e["op"] == "refop")
     done = {e["p"]: e for e in tr["ev"] if e["op"] == "done"}
-    told = tuple((done[p]["unp"] if _reported(d) else "none", tuple(done[p]["st"])) if p in done else ("missing", ())
-                 for p, d in enumerate(tr["push"], 1))
+    told = tuple((done[p]["unp"] if (_reported(d) or done[p]["unp"] == "error") else "none", tuple(done[p]["st"]))
+                 if p in done else ("missing", ()) for p, d in enumerate(tr["push"], 1))
     last = tr["ev"][-1] if tr["ev"] else None
     final = max((e for e in tr["ev"] if e["op"] == "done"), key=lambda e: e["seq"], default=None)
     refs = tuple(final["refs"]) if final else tuple(tr["refs0"])
